@@ -4,6 +4,7 @@
    Theory/NetDerivSkip.v, which are the derivative of the objective (skip_walk_is_derivative). *)
 From NV Require Import Prelude Num NumR Random Tensor Activation Objective Optimizer Layers Network Learn.
 From NV.Theory Require Import Monad Lists Build RSum Adjoint Deriv Chain ChainDense C07 C01 Forward NetDeriv NetDerivObj NetDerivSkip.
+From NV.Theory Require Alist.
 Require Import Reals Lra Lia List.
 From Coquelicot Require Import Coquelicot.
 Import ListNotations.
@@ -341,4 +342,469 @@ Proof.
       rewrite <- Hpr. f_equal. lia.
     + intros t Ht. specialize (Hmx (S t) ltac:(cbn [length]; lia)). rewrite <- Hmx. f_equal. lia.
     + exact Hlast.
+Qed.
+
+Lemma nth_error_map_app_r A B (f : A -> B) (l1 l2 : list A) t :
+  nth_error (map f (l1 ++ l2)) (length l1 + t) = nth_error (map f l2) t.
+Proof. rewrite map_app, nth_error_app2 by (rewrite map_length; lia). rewrite map_length. f_equal. lia. Qed.
+
+Lemma nth_error_map_app_l A B (f : A -> B) (l1 l2 : list A) t : (t < length l1)%nat ->
+  nth_error (map f (l1 ++ l2)) t = nth_error (map f l1) t.
+Proof. intros H. rewrite map_app, nth_error_app1 by (rewrite map_length; exact H). reflexivity. Qed.
+
+Lemma nth_error_map_nth A B (f : A -> B) (l : list A) t d : (t < length l)%nat ->
+  nth_error (map f l) t = Some (f (nth t l d)).
+Proof. intros H. apply map_nth_error. apply nth_error_nth'. exact H. Qed.
+
+Lemma ws_of_app (s1 s2 : list (lspec * vec)) (g1 g2 : list vec) : length g1 = length s1 ->
+  ws_of (s1 ++ s2) (g1 ++ g2) = ws_of s2 g2 ++ ws_of s1 g1.
+Proof.
+  intros H. unfold ws_of. rewrite (@Alist.combine_app_eq _ _ s1 s2 g1 g2 (eq_sym H)). rewrite map_app, rev_app_distr. reflexivity.
+Qed.
+Lemma bs_of_app (s1 s2 : list (lspec * vec)) (g1 g2 : list vec) : length g1 = length s1 ->
+  bs_of (s1 ++ s2) (g1 ++ g2) = bs_of s2 g2 ++ bs_of s1 g1.
+Proof.
+  intros H. unfold bs_of. rewrite (@Alist.combine_app_eq _ _ s1 s2 g1 g2 (eq_sym H)). rewrite map_app, rev_app_distr. reflexivity.
+Qed.
+
+(* ---- the backward pass of the skip network (a < b: layers a..b-1 = la :: mid') ---- *)
+Section SkipBackward.
+  Variables (pre mid' post : list (lspec * vec)) (sa sb : lspec) (tha thb : vec).
+  Variable n : network NR.
+  Let la : lspec * vec := (sa, tha).
+  Let lb : lspec * vec := (sb, thb).
+  Let mid := la :: mid'.
+  Let a := length pre.
+  Let b := (length pre + length mid)%nat.
+  Let specs := pre ++ mid ++ lb :: post.
+  Let len := length specs.
+  Hypothesis Hlay : n_layers n = map mkL specs.
+  Hypothesis Hconn : n_connect n = (b, a) :: nil.
+  Hypothesis Hacc : n_skipacc n = AccAdd.
+
+  Variables (d : nat) (xl gl : list R).
+  Hypothesis Hxl : length xl = d.
+  Let da := lastD pre d.
+  Hypothesis Hchp : chainedS pre d.
+  Hypothesis Hchm : chainedS mid da.
+  Hypothesis Hda : lastD mid da = da.
+  Hypothesis Hchb : chainedS (lb :: post) da.
+  Hypothesis Hgl : length gl = lastD (lb :: post) da.
+
+  Let xa := predL pre xl.
+  Let xb := predL mid xa.
+  Let z := addL xb xa.
+
+  Variable f : fwd NR.
+  Hypothesis Hfpre : fw_pre f = map (t_single NR) (stored_pres pre mid post lb xl).
+  Hypothesis Hfpost : fw_post f = map (t_single NR) (stored_inputs pre mid post lb xl ++ skip_out pre mid post lb xl :: nil).
+  Hypothesis Hfmax : fw_max f = repeat None len.
+
+  Lemma inv_conn : invert_net_connect (n_connect n) = (a, b :: nil) :: nil.
+  Proof. rewrite Hconn. reflexivity. Qed.
+
+  Lemma len_eq : length (n_layers n) = len.
+  Proof. rewrite Hlay, map_length. reflexivity. Qed.
+
+  Lemma len_split : len = (length pre + (S (length mid') + S (length post)))%nat.
+  Proof. unfold len, specs, mid. rewrite !app_length. cbn [length]. lia. Qed.
+
+  Lemma lxa : length xa = da. Proof. apply (@length_predL pre d xl Hchp Hxl). Qed.
+  Lemma lxb : length xb = da. Proof. unfold xb. rewrite (@length_predL mid da xa Hchm lxa). exact Hda. Qed.
+  Lemma lz : length z = da. Proof. apply length_addL; [exact lxb|exact lxa]. Qed.
+
+  Theorem backward_skip :
+    let '(gps_pre, gps_mid, gps_bp) := skip_grads pre mid post lb xl gl in
+    exists gs, backward n (t_single NR gl) f
+               = Ok (ws_of specs (gps_pre ++ gps_mid ++ gps_bp), bs_of specs (gps_pre ++ gps_mid ++ gps_bp), gs).
+  Proof.
+    pose proof len_split as Hls. pose proof len_eq as Hle.
+    unfold skip_grads. fold xa. fold xb. fold z.
+    pose proof Hchb as Hchb'. unfold lb in Hchb'. cbn [chainedS] in Hchb'. destruct Hchb' as (Hnb & Hob & Hnb0 & Hab & Hchpost).
+    pose proof Hchm as Hchm'. unfold mid, la in Hchm'. cbn [chainedS] in Hchm'.
+    destruct Hchm' as (Hna & Hoa & Hna0 & Haa & Hchmid').
+    unfold lb, la in *.
+    (* ---- the gradients, named ---- *)
+    cbn [gradsL].
+    pose proof (@gradsL_gin_length post (ls_o sb) (outL (sb, thb) z) gl Hchpost ltac:(cbn [lastD] in Hgl; exact Hgl)) as Hgpl.
+    destruct (gradsL post (outL (sb, thb) z) gl) as [[gpost gps_post] gins_post] eqn:Egpost. cbn [fst] in Hgpl.
+    set (bb := sbwd (stage_of sb) (eff sb thb) (vof z) (vof gpost)).
+    set (gb := lof (ls_n sb) (fst bb)).
+    assert (Hgbl : length gb = da) by (unfold gb; rewrite length_lof; exact Hnb).
+    unfold mid. cbn [gradsL].
+    assert (Hgbl' : length gb = lastD mid' (ls_o sa)).
+    { rewrite Hgbl. unfold mid in Hda. cbn [lastD] in Hda. symmetry. exact Hda. }
+    pose proof (@gradsL_gin_length mid' (ls_o sa) (outL (sa, tha) xa) gb Hchmid' Hgbl') as Hgml.
+    destruct (gradsL mid' (outL (sa, tha) xa) gb) as [[gmid gps_mid'] gins_mid'] eqn:Egmid. cbn [fst] in Hgml.
+    set (ba := sbwd (stage_of sa) (eff sa tha) (vof xa) (vof gmid)).
+    set (gm := lof (ls_n sa) (fst ba)).
+    assert (Hgmlen : length gm = da) by (unfold gm; rewrite length_lof; exact Hna).
+    assert (Hgsum : length (addL gm gb) = lastD pre d) by (apply length_addL; assumption).
+    destruct (gradsL pre xl (addL gm gb)) as [[gpre gps_pre] gins_pre] eqn:Egpre.
+    (* ---- the fold, split into post | b | mid' | a | pre ---- *)
+    rewrite backward_is_fold. rewrite Hle. rewrite Hlay. unfold specs, mid.
+    rewrite !map_app. cbn [map]. rewrite !rev_app_distr. cbn [rev]. rewrite ?rev_app_distr. cbn [rev app].
+    rewrite <- !app_assoc. cbn [app].
+    rewrite Hls.
+    replace (length pre + (S (length mid') + S (length post)))%nat
+      with (length post + (1 + (length mid' + (1 + length pre))))%nat by lia.
+    rewrite !seq_app. cbn [seq Nat.add].
+    rewrite (@Alist.combine_app_eq _ _ (seq 0 (length post)) _ (rev (map mkL post)) _)
+      by (rewrite seq_length, rev_length, map_length; reflexivity).
+    cbn [combine app].
+    rewrite (@Alist.combine_app_eq _ _ (seq (length post + 1) (length mid')) _ (rev (map mkL mid')) _)
+      by (rewrite seq_length, rev_length, map_length; reflexivity).
+    cbn [combine app].
+    rewrite !foldM_app.
+    (* stored tensors *)
+    assert (SI : stored_inputs pre ((sa, tha) :: mid') post (sb, thb) xl
+                 = insL pre xl ++ (xa :: insL mid' (outL (sa, tha) xa)) ++ xb :: insL post (outL (sb, thb) z)).
+    { unfold stored_inputs. reflexivity. }
+    assert (SP : stored_pres pre ((sa, tha) :: mid') post (sb, thb) xl
+                 = presL pre xl ++ (preL (sa, tha) xa :: presL mid' (outL (sa, tha) xa)) ++ preL (sb, thb) z :: presL post (outL (sb, thb) z)).
+    { unfold stored_pres. reflexivity. }
+    fold mid in Hfpre, Hfpost. unfold mid in Hfpre, Hfpost. rewrite SP in Hfpre. rewrite SI in Hfpost.
+    (* ---- 1. the layers behind b ---- *)
+    pose proof (@bwd_plain_segment n f post (S b) (outL (sb, thb) z) gl (ls_o sb)
+                  (t_single NR gl :: nil) [] [] (fw_fb f) (t_single NR gl :: nil)) as S1.
+    cbv zeta in S1. rewrite Hle in S1. rewrite Egpost in S1.
+    replace (len - S b - length post)%nat with 0%nat in S1 by (unfold b, mid; cbn [length]; lia).
+    rewrite S1; clear S1.
+    2:{ unfold b, mid. cbn [length]. lia. }
+    2:{ intros idx Hi. rewrite inv_conn, Hconn. cbn [alist_get].
+        replace (b =? idx)%nat with false by (symmetry; apply Nat.eqb_neq; lia).
+        replace (a =? idx)%nat with false by (symmetry; apply Nat.eqb_neq; unfold a, b, mid in *; cbn [length] in Hi; lia).
+        split; reflexivity. }
+    2:{ exact Hchpost. }
+    2:{ apply length_outL. }
+    2:{ cbn [lastD] in Hgl. exact Hgl. }
+    2:{ intros t Ht. rewrite Hfpost.
+        replace (S b + t)%nat with (length (insL pre xl ++ (xa :: insL mid' (outL (sa, tha) xa)) ++ xb :: nil) + t)%nat
+          by (rewrite !app_length; cbn [length]; rewrite !length_insL; unfold b, mid; cbn [length]; lia).
+        replace ((insL pre xl ++ (xa :: insL mid' (outL (sa, tha) xa)) ++ xb :: insL post (outL (sb, thb) z)) ++ skip_out pre ((sa, tha) :: mid') post (sb, thb) xl :: nil)
+          with ((insL pre xl ++ (xa :: insL mid' (outL (sa, tha) xa)) ++ xb :: nil) ++ (insL post (outL (sb, thb) z) ++ skip_out pre ((sa, tha) :: mid') post (sb, thb) xl :: nil))
+          by (rewrite <- !app_assoc; cbn [app]; reflexivity).
+        rewrite nth_error_map_app_r. rewrite nth_error_map_app_l by (rewrite length_insL; exact Ht).
+        apply nth_error_map_nth. rewrite length_insL. exact Ht. }
+    2:{ intros t Ht. rewrite Hfpre.
+        replace (S b + t)%nat with (length (presL pre xl ++ (preL (sa, tha) xa :: presL mid' (outL (sa, tha) xa)) ++ preL (sb, thb) z :: nil) + t)%nat
+          by (rewrite !app_length; cbn [length]; rewrite !length_presL; unfold b, mid; cbn [length]; lia).
+        replace (presL pre xl ++ (preL (sa, tha) xa :: presL mid' (outL (sa, tha) xa)) ++ preL (sb, thb) z :: presL post (outL (sb, thb) z))
+          with ((presL pre xl ++ (preL (sa, tha) xa :: presL mid' (outL (sa, tha) xa)) ++ preL (sb, thb) z :: nil) ++ presL post (outL (sb, thb) z))
+          by (rewrite <- !app_assoc; cbn [app]; reflexivity).
+        rewrite nth_error_map_app_r. apply nth_error_map_nth. rewrite length_presL. exact Ht. }
+    2:{ intros t Ht. rewrite Hfmax. apply nth_error_repeat. rewrite Hls. unfold b, mid. cbn [length]. lia. }
+    2:{ reflexivity. }
+    cbn [bind].
+    (* lengths of the gradient lists *)
+    pose proof (gradsL_lengths post (outL (sb, thb) z) gl) as [Lp1 Lp2]. rewrite Egpost in Lp1, Lp2. cbn [fst snd] in Lp1, Lp2.
+    pose proof (gradsL_lengths mid' (outL (sa, tha) xa) gb) as [Lm1 Lm2]. rewrite Egmid in Lm1, Lm2. cbn [fst snd] in Lm1, Lm2.
+    pose proof (gradsL_lengths pre xl (addL gm gb)) as [Lr1 Lr2]. rewrite Egpre in Lr1, Lr2. cbn [fst snd] in Lr1, Lr2.
+    (* the stored tensors at a and b *)
+    assert (Pb : nth_error (fw_post f) b = Some (t_single NR xb)).
+    { rewrite Hfpost.
+      replace b with (length (insL pre xl ++ xa :: insL mid' (outL (sa, tha) xa)) + 0)%nat
+        by (rewrite app_length; cbn [length]; rewrite !length_insL; unfold b, mid; cbn [length]; lia).
+      replace ((insL pre xl ++ (xa :: insL mid' (outL (sa, tha) xa)) ++ xb :: insL post (outL (sb, thb) z)) ++ skip_out pre ((sa, tha) :: mid') post (sb, thb) xl :: nil)
+        with ((insL pre xl ++ xa :: insL mid' (outL (sa, tha) xa)) ++ (xb :: insL post (outL (sb, thb) z) ++ skip_out pre ((sa, tha) :: mid') post (sb, thb) xl :: nil))
+        by (rewrite <- !app_assoc; cbn [app]; reflexivity).
+      rewrite nth_error_map_app_r. reflexivity. }
+    assert (Pa : nth_error (fw_post f) a = Some (t_single NR xa)).
+    { rewrite Hfpost.
+      replace a with (length (insL pre xl) + 0)%nat by (rewrite length_insL; unfold a; lia).
+      rewrite <- !app_assoc. rewrite nth_error_map_app_r. reflexivity. }
+    assert (Qb : nth_error (fw_pre f) b = Some (t_single NR (preL (sb, thb) z))).
+    { rewrite Hfpre.
+      replace b with (length (presL pre xl ++ preL (sa, tha) xa :: presL mid' (outL (sa, tha) xa)) + 0)%nat
+        by (rewrite app_length; cbn [length]; rewrite !length_presL; unfold b, mid; cbn [length]; lia).
+      replace (presL pre xl ++ (preL (sa, tha) xa :: presL mid' (outL (sa, tha) xa)) ++ preL (sb, thb) z :: presL post (outL (sb, thb) z))
+        with ((presL pre xl ++ preL (sa, tha) xa :: presL mid' (outL (sa, tha) xa)) ++ (preL (sb, thb) z :: presL post (outL (sb, thb) z)))
+        by (rewrite <- !app_assoc; cbn [app]; reflexivity).
+      rewrite nth_error_map_app_r. reflexivity. }
+    assert (Qa : nth_error (fw_pre f) a = Some (t_single NR (preL (sa, tha) xa))).
+    { rewrite Hfpre.
+      replace a with (length (presL pre xl) + 0)%nat by (rewrite length_presL; unfold a; lia).
+      rewrite nth_error_map_app_r. reflexivity. }
+    assert (Mx : forall k, (k < len)%nat -> nth_error (fw_max f) k = Some None).
+    { intros k Hk. rewrite Hfmax. apply nth_error_repeat. exact Hk. }
+    assert (Hab' : (a < b)%nat) by (unfold a, b, mid; cbn [length]; lia).
+    assert (Hbl : (b < len)%nat) by (rewrite Hls; unfold b, mid; cbn [length]; lia).
+    (* ---- 2. layer b, the skip target ---- *)
+    pose proof (@last_gs_of (t_single NR gl :: nil) post (outL (sb, thb) z) gl eq_refl) as Elast1. rewrite Egpost in Elast1.
+    cbn [foldM]. unfold bstep at 1. rewrite Hle. rewrite inv_conn.
+    replace (len - length post - 1)%nat with b by (rewrite Hls; unfold b, mid; cbn [length]; lia).
+    unfold nth_res. rewrite Pb. cbn [bind]. rewrite Hconn. cbn [alist_get]. rewrite Nat.eqb_refl. rewrite Pa. cbn [bind].
+    replace (shape_eqb (tshape (t_single NR xa)) (tshape (t_single NR xb))) with true.
+    2:{ symmetry. unfold t_single. cbn [tshape shape_eqb]. apply Nat.eqb_eq. exact (eq_trans lxa (eq_sym lxb)). }
+    cbn [bind]. rewrite Hacc. rewrite (@add_single xb xa (eq_trans lxb (eq_sym lxa))). cbn [bind].
+    rewrite (@addL_zipk xb xa (eq_trans lxb (eq_sym lxa))). fold z.
+    rewrite Qb. cbn [bind]. rewrite Elast1. cbn [bind]. rewrite (Mx b Hbl). cbn [bind mkL fst snd layer_backward].
+    pose proof (@mk_dense_backward sb thb z gpost Hob Hnb0 ltac:(rewrite lz, Hnb; reflexivity) Hgpl Hab) as Hbb. cbv zeta in Hbb.
+    unfold preL. cbn [fst snd]. rewrite Hbb. cbn [bind fst snd]. fold bb. fold gb.
+    replace (a =? b)%nat with false by (symmetry; apply Nat.eqb_neq; lia). cbn [bind].
+    (* ---- 3. layers a+1 .. b-1 ---- *)
+    rewrite foldM_app.
+    pose proof (@bwd_plain_segment n f mid' (S a) (outL (sa, tha) xa) gb (ls_o sa)
+                  (((t_single NR gl :: nil) ++ gs_of gins_post) ++ t_single NR gb :: nil)
+                  (([] ++ ws_of post gps_post) ++ GPlain (wg_tensor sb (snd bb)) :: nil)
+                  (([] ++ bs_of post gps_post) ++ option_map (@BPlain NR) (bg_tensor sb (snd bb)) :: nil)
+                  (fw_fb f)
+                  (((t_single NR gl :: nil) ++ gs_of gins_post) ++ t_single NR gb :: nil)) as S3.
+    cbv zeta in S3. rewrite Hle in S3. rewrite Egmid in S3.
+    replace (len - S a - length mid')%nat with (length post + 1)%nat in S3 by (rewrite Hls; unfold a; lia).
+    rewrite S3; clear S3.
+    2:{ rewrite Hls. unfold a. lia. }
+    2:{ intros idx Hi. rewrite inv_conn, Hconn. cbn [alist_get].
+        replace (b =? idx)%nat with false by (symmetry; apply Nat.eqb_neq; unfold b, mid; cbn [length]; lia).
+        replace (a =? idx)%nat with false by (symmetry; apply Nat.eqb_neq; lia).
+        split; reflexivity. }
+    2:{ exact Hchmid'. }
+    2:{ apply length_outL. }
+    2:{ exact Hgbl'. }
+    2:{ intros t Ht. rewrite Hfpost.
+        replace (S a + t)%nat with (length (insL pre xl ++ xa :: nil) + t)%nat by (rewrite app_length; cbn [length]; rewrite length_insL; unfold a; lia).
+        replace ((insL pre xl ++ (xa :: insL mid' (outL (sa, tha) xa)) ++ xb :: insL post (outL (sb, thb) z)) ++ skip_out pre ((sa, tha) :: mid') post (sb, thb) xl :: nil)
+          with ((insL pre xl ++ xa :: nil) ++ (insL mid' (outL (sa, tha) xa) ++ (xb :: insL post (outL (sb, thb) z) ++ skip_out pre ((sa, tha) :: mid') post (sb, thb) xl :: nil)))
+          by (rewrite <- !app_assoc; cbn [app]; reflexivity).
+        rewrite nth_error_map_app_r. rewrite nth_error_map_app_l by (rewrite length_insL; exact Ht).
+        apply nth_error_map_nth. rewrite length_insL. exact Ht. }
+    2:{ intros t Ht. rewrite Hfpre.
+        replace (S a + t)%nat with (length (presL pre xl ++ preL (sa, tha) xa :: nil) + t)%nat by (rewrite app_length; cbn [length]; rewrite length_presL; unfold a; lia).
+        replace (presL pre xl ++ (preL (sa, tha) xa :: presL mid' (outL (sa, tha) xa)) ++ preL (sb, thb) z :: presL post (outL (sb, thb) z))
+          with ((presL pre xl ++ preL (sa, tha) xa :: nil) ++ (presL mid' (outL (sa, tha) xa) ++ preL (sb, thb) z :: presL post (outL (sb, thb) z)))
+          by (rewrite <- !app_assoc; cbn [app]; reflexivity).
+        rewrite nth_error_map_app_r. rewrite nth_error_map_app_l by (rewrite length_presL; exact Ht).
+        apply nth_error_map_nth. rewrite length_presL. exact Ht. }
+    2:{ intros t Ht. apply Mx. rewrite Hls. unfold a. lia. }
+    2:{ apply last_opt_app. }
+    cbn [bind].
+    (* ---- 4. layer a, the skip source ---- *)
+    pose proof (@last_gs_of (((t_single NR gl :: nil) ++ gs_of gins_post) ++ t_single NR gb :: nil) mid' (outL (sa, tha) xa) gb
+                  (last_opt_app _ _)) as Elast2. rewrite Egmid in Elast2.
+    cbn [foldM]. unfold bstep at 1. rewrite Hle. rewrite inv_conn.
+    replace (len - (length post + 1 + length mid') - 1)%nat with a by (rewrite Hls; unfold a; lia).
+    unfold nth_res. rewrite Pa. cbn [bind]. rewrite Hconn. cbn [alist_get].
+    replace (b =? a)%nat with false by (symmetry; apply Nat.eqb_neq; lia). cbn [bind].
+    rewrite Qa. cbn [bind]. rewrite Elast2. cbn [bind].
+    rewrite (Mx a ltac:(lia)). cbn [bind mkL fst snd layer_backward].
+    pose proof (@mk_dense_backward sa tha xa gmid Hoa Hna0 ltac:(rewrite lxa, Hna; reflexivity) Hgml Haa) as Hba. cbv zeta in Hba.
+    unfold preL. cbn [fst snd]. rewrite Hba. cbn [bind fst snd]. fold ba. fold gm.
+    rewrite Nat.eqb_refl. cbn [foldM bind]. unfold csub.
+    replace (b <=? len)%nat with true by (symmetry; apply Nat.leb_le; lia). cbn [bind].
+    assert (Eps : nth_error (((((t_single NR gl :: nil) ++ gs_of gins_post) ++ t_single NR gb :: nil) ++ gs_of gins_mid') ++ t_single NR gm :: nil) (len - b)
+                  = Some (t_single NR gb)).
+    { rewrite <- !app_assoc. cbn [app].
+      replace (len - b)%nat with (length (t_single NR gl :: gs_of gins_post) + 0)%nat
+        by (assert (Lg : length (gs_of gins_post) = length post) by (unfold gs_of; rewrite rev_length, map_length; exact Lp2);
+            cbn [length]; rewrite Lg, Hls; unfold b, mid; cbn [length]; lia).
+      change (t_single NR gl :: gs_of gins_post ++ t_single NR gb :: gs_of gins_mid' ++ t_single NR gm :: nil)
+        with ((t_single NR gl :: gs_of gins_post) ++ t_single NR gb :: gs_of gins_mid' ++ t_single NR gm :: nil).
+      rewrite nth_error_app2 by lia. replace (length (t_single NR gl :: gs_of gins_post) + 0 - length (t_single NR gl :: gs_of gins_post))%nat with 0%nat by lia.
+      reflexivity. }
+    unfold nth_res. rewrite Eps. cbn [bind]. unfold reshape at 1. cbn [t_single tshape bind].
+    change (@mkT NR (SSingle (length gm)) (@DSingle NR gm)) with (t_single NR gm).
+    change (@mkT NR (SSingle (length gb)) (@DSingle NR gb)) with (t_single NR gb).
+    rewrite (@add_single gm gb (eq_trans Hgmlen (eq_sym Hgbl))). cbn [bind].
+    rewrite (@addL_zipk gm gb (eq_trans Hgmlen (eq_sym Hgbl))).
+    (* ---- 5. the layers before a ---- *)
+    match goal with |- context [foldM (bstep n f) _ ?st] => set (st4 := st) end.
+    pose proof (@bwd_plain_segment n f pre 0%nat xl (addL gm gb) d) as S5.
+    destruct st4 as [[[[gs4 ws4] bs4] fbs4] ps4] eqn:Est4.
+    specialize (S5 gs4 ws4 bs4 fbs4 ps4).
+    cbv zeta in S5. rewrite Hle in S5. rewrite Egpre in S5.
+    replace (len - 0 - length pre)%nat with (length post + 1 + length mid' + 1)%nat in S5 by (rewrite Hls; lia).
+    rewrite S5; clear S5.
+    + cbn [bind]. eexists. f_equal. f_equal.
+      * f_equal.
+        -- injection Est4 as _ Ew _ _ _. rewrite <- Ew.
+           rewrite (@ws_of_app pre ((sa, tha) :: mid' ++ (sb, thb) :: post) gps_pre (snd ba :: gps_mid' ++ snd bb :: gps_post) Lr1).
+           f_equal.
+           change ((sa, tha) :: mid' ++ (sb, thb) :: post) with (((sa, tha) :: mid') ++ (sb, thb) :: post).
+           change (snd ba :: gps_mid' ++ snd bb :: gps_post) with ((snd ba :: gps_mid') ++ snd bb :: gps_post).
+           rewrite (@ws_of_app ((sa, tha) :: mid') ((sb, thb) :: post) (snd ba :: gps_mid') (snd bb :: gps_post) ltac:(cbn [length]; lia)).
+           unfold ws_of. cbn [combine map rev fst snd app]. rewrite <- !app_assoc. reflexivity.
+        -- injection Est4 as _ _ Eb _ _. rewrite <- Eb.
+           rewrite (@bs_of_app pre ((sa, tha) :: mid' ++ (sb, thb) :: post) gps_pre (snd ba :: gps_mid' ++ snd bb :: gps_post) Lr1).
+           f_equal.
+           change ((sa, tha) :: mid' ++ (sb, thb) :: post) with (((sa, tha) :: mid') ++ (sb, thb) :: post).
+           change (snd ba :: gps_mid' ++ snd bb :: gps_post) with ((snd ba :: gps_mid') ++ snd bb :: gps_post).
+           rewrite (@bs_of_app ((sa, tha) :: mid') ((sb, thb) :: post) (snd ba :: gps_mid') (snd bb :: gps_post) ltac:(cbn [length]; lia)).
+           unfold bs_of. cbn [combine map rev fst snd app]. rewrite <- !app_assoc. reflexivity.
+    + lia.
+    + intros idx Hi. rewrite inv_conn, Hconn. cbn [alist_get].
+      replace (b =? idx)%nat with false by (symmetry; apply Nat.eqb_neq; unfold a in *; lia).
+      replace (a =? idx)%nat with false by (symmetry; apply Nat.eqb_neq; unfold a in *; lia).
+      split; reflexivity.
+    + exact Hchp.
+    + exact Hxl.
+    + exact Hgsum.
+    + intros t Ht. rewrite Hfpost. cbn [Nat.add]. rewrite <- !app_assoc.
+      rewrite nth_error_map_app_l by (rewrite length_insL; exact Ht).
+      apply nth_error_map_nth. rewrite length_insL. exact Ht.
+    + intros t Ht. rewrite Hfpre. cbn [Nat.add].
+      rewrite nth_error_map_app_l by (rewrite length_presL; exact Ht).
+      apply nth_error_map_nth. rewrite length_presL. exact Ht.
+    + intros t Ht. apply Mx. rewrite Hls. lia.
+    + injection Est4 as Eg _ _ _ _. rewrite <- Eg.
+      apply (@last_opt_app _ (t_single NR gl :: (gs_of gins_post ++ t_single NR gb :: nil) ++ gs_of gins_mid') (t_single NR (addL gm gb))).
+  Qed.
+End SkipBackward.
+
+(* ================= end to end ================= *)
+Section SkipEndToEnd.
+  Variables (cpre cmid' cpost : curves) (sa sb : lspec) (Tha Thb : R -> vec) (Tha' Thb' : vec).
+  Let ca : lspec * (R -> vec) * vec := (sa, Tha, Tha').
+  Let cb : lspec * (R -> vec) * vec := (sb, Thb, Thb').
+  Let cmid : curves := ca :: cmid'.
+  Let a := length cpre.
+  Let b := (length cpre + length cmid)%nat.
+  Variable n0 : network NR.
+  Hypothesis Hloop : n_loopbacks n0 = [].
+  Hypothesis Hconn : n_connect n0 = (b, a) :: nil.
+  Hypothesis Hacc : n_skipacc n0 = AccAdd.
+  Hypothesis Hobj : n_objective n0 = (MSE, None).
+
+  Definition skip_net_at (t : R) : network NR :=
+    set_layers n0 (map mkL (at_t cpre t ++ at_t cmid t ++ (sb, Thb t) :: at_t cpost t)).
+
+  Variables (d : nat) (xl tgl : list R) (h0 : R).
+  Hypothesis Hxl : length xl = d.
+  Let da := lastD (at_t cpre h0) d.
+  Hypothesis Hchp : chainedS (at_t cpre h0) d.
+  Hypothesis Hchm : chainedS (at_t cmid h0) da.
+  Hypothesis Hda : lastD (at_t cmid h0) da = da.
+  Hypothesis Hchb : chainedS (at_t (cb :: cpost) h0) da.
+  Hypothesis Htl : length tgl = lastD (at_t (cb :: cpost) h0) da.
+  Hypothesis Hpos : (0 < length tgl)%nat.
+  Hypothesis Hcup : curves_ok cpre h0.
+  Hypothesis Hcum : curves_ok cmid h0.
+  Hypothesis Hcub : curves_ok (cb :: cpost) h0.
+  Let xa := predL (at_t cpre h0) xl.
+  Let xb := predL (at_t cmid h0) xa.
+  Hypothesis Hsmp : smoothL (at_t cpre h0) xl.
+  Hypothesis Hsmm : smoothL (at_t cmid h0) xa.
+  Hypothesis Hsmb : smoothL (at_t (cb :: cpost) h0) (addL xb xa).
+
+  Let m := length tgl.
+  Let pred (t : R) : list R := skip_pred (at_t cpre t) (at_t cmid t) (at_t cpost t) (sb, Thb t) xl.
+
+  (* sample_grad of the skip network at an arbitrary t *)
+  Lemma skip_sample_grad t :
+    let '(gps_pre, gps_mid, gps_bp) :=
+        skip_grads (at_t cpre t) (at_t cmid t) (at_t cpost t) (sb, Thb t) xl (lof m (mse_gradR m (vof tgl) (vof (pred t)))) in
+    sample_grad (skip_net_at t) (t_single NR xl, t_single NR tgl)
+    = Ok ((ws_of (at_t cpre t ++ at_t cmid t ++ (sb, Thb t) :: at_t cpost t) (gps_pre ++ gps_mid ++ gps_bp),
+           bs_of (at_t cpre t ++ at_t cmid t ++ (sb, Thb t) :: at_t cpost t) (gps_pre ++ gps_mid ++ gps_bp)),
+          mseR m (vof tgl) (vof (pred t))).
+  Proof.
+    assert (Hchp_t : chainedS (at_t cpre t) d) by (apply (@chainedS_at_t cpre h0 t d); exact Hchp).
+    assert (Eda : lastD (at_t cpre t) d = da) by (unfold da; apply lastD_at_t).
+    assert (Hchm_t : chainedS (at_t cmid t) (lastD (at_t cpre t) d)).
+    { rewrite Eda. apply (@chainedS_at_t cmid h0 t da). exact Hchm. }
+    assert (Hda_t : lastD (at_t cmid t) (lastD (at_t cpre t) d) = lastD (at_t cpre t) d).
+    { rewrite Eda. rewrite (lastD_at_t cmid t h0 da). exact Hda. }
+    assert (Hchb_t : chainedS ((sb, Thb t) :: at_t cpost t) (lastD (at_t cpre t) d)).
+    { rewrite Eda. apply (@chainedS_at_t (cb :: cpost) h0 t da). exact Hchb. }
+    assert (Hlen_a : length (at_t cpre t) = a) by (unfold at_t; rewrite map_length; reflexivity).
+    assert (Hlen_m : length (at_t cmid t) = length cmid) by (unfold at_t; rewrite map_length; reflexivity).
+    assert (Hconn_t : n_connect (skip_net_at t) = ((length (at_t cpre t) + length (at_t cmid t))%nat, length (at_t cpre t)) :: nil).
+    { cbn [skip_net_at set_layers n_connect]. rewrite Hconn, Hlen_a, Hlen_m. reflexivity. }
+    pose proof (@forward_skip (at_t cpre t) (at_t cmid t) (at_t cpost t) (sb, Thb t) (skip_net_at t)
+                  eq_refl Hloop Hconn_t Hacc ltac:(unfold cmid, ca; cbn [at_t map]; discriminate)
+                  d xl Hxl Hchp_t Hchm_t Hda_t Hchb_t) as Hf.
+    set (f := {| fw_pre := map (t_single NR) (stored_pres (at_t cpre t) (at_t cmid t) (at_t cpost t) (sb, Thb t) xl);
+                 fw_post := map (t_single NR) (stored_inputs (at_t cpre t) (at_t cmid t) (at_t cpost t) (sb, Thb t) xl
+                                               ++ skip_out (at_t cpre t) (at_t cmid t) (at_t cpost t) (sb, Thb t) xl :: nil);
+                 fw_max := repeat None (length (at_t cpre t ++ at_t cmid t ++ (sb, Thb t) :: at_t cpost t)); fw_fb := [] |}) in *.
+    assert (Epred : skip_out (at_t cpre t) (at_t cmid t) (at_t cpost t) (sb, Thb t) xl = pred t) by reflexivity.
+    assert (Hyl : length (pred t) = m).
+    { unfold pred, skip_pred.
+      rewrite (@length_predL ((sb, Thb t) :: at_t cpost t) (lastD (at_t cpre t) d) _ Hchb_t).
+      - rewrite Eda. unfold m. rewrite Htl. apply (lastD_at_t (cb :: cpost) t h0 da).
+      - apply length_addL.
+        + rewrite (@length_predL (at_t cmid t) (lastD (at_t cpre t) d) _ Hchm_t); [exact Hda_t|].
+          apply (@length_predL (at_t cpre t) d xl Hchp_t Hxl).
+        + apply (@length_predL (at_t cpre t) d xl Hchp_t Hxl). }
+    pose proof (@backward_skip (at_t cpre t) (at_t cmid' t) (at_t cpost t) sa sb (Tha t) (Thb t) (skip_net_at t)
+                  eq_refl Hconn_t Hacc d xl (lof m (mse_gradR m (vof tgl) (vof (pred t)))) Hxl Hchp_t Hchm_t Hda_t Hchb_t
+                  ltac:(rewrite length_lof; rewrite Eda; unfold m; rewrite Htl; symmetry; apply (lastD_at_t (cb :: cpost) t h0 da))
+                  f eq_refl eq_refl eq_refl) as Hb.
+    change ((sa, Tha t) :: at_t cmid' t) with (at_t cmid t) in Hb.
+    destruct (skip_grads (at_t cpre t) (at_t cmid t) (at_t cpost t) (sb, Thb t) xl (lof m (mse_gradR m (vof tgl) (vof (pred t)))))
+      as [[gps_pre gps_mid] gps_bp].
+    destruct Hb as (gs & Hb).
+    unfold sample_grad. cbn [fst snd]. rewrite Hf. cbn [bind].
+    assert (Elast : last_opt (fw_post f) = Some (t_single NR (pred t))).
+    { unfold f. cbn [fw_post]. rewrite map_app. cbn [map]. rewrite Epred. apply last_opt_app. }
+    rewrite Elast. cbn [bind]. cbn [skip_net_at set_layers n_objective]. rewrite Hobj. cbn [fst snd].
+    rewrite (@loss_mse_single (pred t) tgl m Hyl eq_refl). cbn [bind fst snd].
+    change (set_layers n0 (map mkL (at_t cpre t ++ at_t cmid t ++ (sb, Thb t) :: at_t cpost t))) with (skip_net_at t).
+    rewrite Hb. reflexivity.
+  Qed.
+
+  Theorem skip_model_gradient :
+    exists gps_pre gps_mid gps_bp : list vec,
+      sample_grad (skip_net_at h0) (t_single NR xl, t_single NR tgl)
+        = Ok ((ws_of (at_t cpre h0 ++ at_t cmid h0 ++ (sb, Thb h0) :: at_t cpost h0) (gps_pre ++ gps_mid ++ gps_bp),
+               bs_of (at_t cpre h0 ++ at_t cmid h0 ++ (sb, Thb h0) :: at_t cpost h0) (gps_pre ++ gps_mid ++ gps_bp)),
+              mseR m (vof tgl) (vof (pred h0))) /\
+      (forall t, loss_of (sample_grad (skip_net_at t) (t_single NR xl, t_single NR tgl)) = mseR m (vof tgl) (vof (pred t))) /\
+      is_derive (fun t => loss_of (sample_grad (skip_net_at t) (t_single NR xl, t_single NR tgl))) h0
+                (pairing cpre gps_pre + pairing cmid gps_mid + pairing (cb :: cpost) gps_bp).
+  Proof.
+    pose proof (skip_sample_grad h0) as SG0.
+    assert (LV : forall t, loss_of (sample_grad (skip_net_at t) (t_single NR xl, t_single NR tgl)) = mseR m (vof tgl) (vof (pred t))).
+    { intros t. pose proof (skip_sample_grad t) as SGt.
+      destruct (skip_grads (at_t cpre t) (at_t cmid t) (at_t cpost t) (sb, Thb t) xl _) as [[g1 g2] g3]. rewrite SGt. reflexivity. }
+    pose proof (@skip_walk_is_derivative cpre cmid cpost cb d xl h0 m
+                  (fun yl => mseR m (vof tgl) (vof yl)) (fun yl => lof m (mse_gradR m (vof tgl) (vof yl)))
+                  Hchp Hxl Hchm Hda Hchb Htl Hcup Hcum Hcub Hsmp Hsmm Hsmb) as D.
+    cbv zeta in D.
+    destruct (skip_grads (at_t cpre h0) (at_t cmid h0) (at_t cpost h0) (sb, Thb h0) xl (lof m (mse_gradR m (vof tgl) (vof (pred h0)))))
+      as [[gps_pre gps_mid] gps_bp] eqn:Eg.
+    exists gps_pre, gps_mid, gps_bp. split; [exact SG0|]. split; [exact LV|].
+    apply (is_derive_ext (fun t => mseR m (vof tgl) (vof (pred t)))); [intros t; symmetry; apply LV|].
+    unfold cb in D. cbn [fst snd] in D. fold (pred h0) in D. rewrite Eg in D.
+    apply D.
+    - intros Y Y' HYl HYd.
+      replace (dotp m (vof (lof m (mse_gradR m (vof tgl) (vof (Y h0))))) Y') with (dotp m (mse_gradR m (vof tgl) (vof (Y h0))) Y').
+      + apply (@mse_contract m (vof tgl) (fun t => vof (Y t)) Y' h0 Hpos HYd).
+      + unfold dotp. apply bsum_ext. intros i Hi. rewrite vof_lof by exact Hi. reflexivity.
+    - intros y Hy. apply length_lof.
+  Qed.
+End SkipEndToEnd.
+
+(* ---- the hypotheses are satisfiable: 2 -> 2 (sigmoid) -> 2 (tanh) -> 1 (linear) with the skip 1 -> 2,
+        every parameter moving along an arbitrary line ---- *)
+Example skip_model_gradient_applies (th0 th1 th2 d0 d1 d2 : vec) (x1 x2 y : R) :
+  let s0 := {| ls_o := 2; ls_n := 2; ls_act := Sigmoid; ls_bias := true |} in
+  let s1 := {| ls_o := 2; ls_n := 2; ls_act := Tanh; ls_bias := true |} in
+  let s2 := {| ls_o := 1; ls_n := 2; ls_act := Linear; ls_bias := false |} in
+  let cpre : curves := (s0, (fun t i => th0 i + t * d0 i), d0) :: nil in
+  let n0 : network NR :=
+    {| n_input := SSingle 2; n_layers := []; n_loopbacks := []; n_loopacc := AccMean;
+       n_connect := (2%nat, 1%nat) :: nil; n_skipacc := AccAdd; n_optimizer := default_sgd NR;
+       n_objective := (MSE, None) |} in
+  exists gps_pre gps_mid gps_bp : list vec,
+    is_derive (fun t => loss_of (sample_grad (skip_net_at cpre [] [] s1 s2 (fun t i => th1 i + t * d1 i) (fun t i => th2 i + t * d2 i) d1 n0 t)
+                                              (t_single NR (x1 :: x2 :: nil), t_single NR (y :: nil)))) 0
+              (pairing cpre gps_pre + pairing ((s1, (fun t i => th1 i + t * d1 i), d1) :: nil) gps_mid
+               + pairing ((s2, (fun t i => th2 i + t * d2 i), d2) :: nil) gps_bp).
+Proof.
+  intros s0 s1 s2 cpre n0.
+  destruct (@skip_model_gradient cpre [] [] s1 s2 (fun t i => th1 i + t * d1 i) (fun t i => th2 i + t * d2 i) d1 d2 n0
+              eq_refl eq_refl eq_refl eq_refl 2%nat (x1 :: x2 :: nil) (y :: nil) 0 eq_refl) as (g1 & g2 & g3 & _ & _ & D).
+  - cbn. repeat split; try lia; discriminate.
+  - cbn. repeat split; try lia; discriminate.
+  - reflexivity.
+  - cbn. repeat split; try lia; discriminate.
+  - reflexivity.
+  - cbn. lia.
+  - cbn [curves_ok cpre]. split; [|exact I]. intros k Hk. cbv beta. auto_derive; [exact I|ring].
+  - cbn [curves_ok]. split; [|exact I]. intros k Hk. cbv beta. auto_derive; [exact I|ring].
+  - cbn [curves_ok]. split; [|exact I]. intros k Hk. cbv beta. auto_derive; [exact I|ring].
+  - cbn. split; [intros; exact I|exact I].
+  - cbn. split; [intros; exact I|exact I].
+  - cbn. split; [intros; exact I|exact I].
+  - exists g1, g2, g3. exact D.
 Qed.
